@@ -44,6 +44,8 @@ Definition cd_table {T} (n : nat) (fu : list (list nat)) (cds : list (list T)) :
 Section Runner.
   Variable o : numops.
   Variable deq : D o -> D o -> bool.
+  (* side condition of the float crowding-cut theorem, decided on every case: no distance is NaN *)
+  Variable dok : D o -> bool.
 
   Definition run_sel (k : nat) (pop : list (list Z * list (V o))) (fu : list (list nat))
              (obs_sel : list nat) (obs_cd : list (option (D o))) (cmp_sel : bool) : bool :=
@@ -54,7 +56,8 @@ Section Runner.
     | None => false
     | Some r => negb cmp_sel || list_eqb Nat.eqb (map uid r) obs_sel
     end &&
-    list_eqb (option_eqb deq) (cd_table (length p) fu (crowding_all o fronts)) obs_cd.
+    list_eqb (option_eqb deq) (cd_table (length p) fu (crowding_all o fronts)) obs_cd &&
+    forallb (forallb dok) (crowding_all o fronts).
 
   Definition run_crowd (vals : list (list (V o))) (obs : list (D o)) : bool :=
     list_eqb deq (assign_crowding o (mkpop (map (fun v => ([], v)) vals))) obs.
@@ -70,9 +73,9 @@ Inductive case :=
 
 Definition check (c : case) : bool :=
   match c with
-  | CSelF k pop fu s cd => run_sel f_ops feqb k pop fu s cd true
+  | CSelF k pop fu s cd => run_sel f_ops feqb (fun d => negb (PrimFloat.is_nan d)) k pop fu s cd true
   | CSelQ exact k pop fu s cd =>
-      run_sel q_ops (if exact then qinf_eqb else qinf_close) k pop fu s cd exact
+      run_sel q_ops (if exact then qinf_eqb else qinf_close) (fun _ => true) k pop fu s cd exact
   | CCrowdF vals obs => run_crowd f_ops feqb vals obs
   | CCrowdQ exact vals obs => run_crowd q_ops (if exact then qinf_eqb else qinf_close) vals obs
   end.
